@@ -1,5 +1,6 @@
 import Pandora.Drv.Util
 import Pandora.Model.C14Hdr
+import Pandora.Model.C14Fin
 import Pandora.Spec.C14
 
 namespace Pandora.Drv.C14
@@ -36,6 +37,8 @@ structure Line where
   cell : Spec.C14.Cell
   src : Source            -- the same source with its header declarations (`fh=`, `ch=`)
   hdrInModel : Bool       -- the header declarations are of the kind the model reads
+  hasFile : Bool          -- the source is a file (not inline `uris:`): its Close calls are observed
+  closeFails : Bool       -- `cf=1` on a file source: closing the ammo file fails
 
 /-- a tag / chosencases token of the input line: `_` = the empty tag, `~` = a space -/
 def untok (s : String) : String :=
@@ -85,57 +88,77 @@ def parseLine (kv : List (String × String)) : Option Line := do
   let cases := if cs == "-" then [] else (splitList cs).map untok
   let fh ← parseFH (getS kv "fh")
   let ch ← parseCH (getS kv "ch")
+  let hasFile := getS kv "src" != "uris"
   pure { kind, tags, cases, b := ⟨limit, passes⟩, cap, cell := { tags, cases, limit, passes, cap },
-         src := mkSource tags fh ch, hdrInModel := hdrModelled kind tags.length fh ch }
+         src := mkSource tags fh ch, hdrInModel := hdrModelled kind tags.length fh ch,
+         hasFile, closeFails := hasFile && getS kv "cf" == "1" }
 
-/-- what the harness would observe on one side of the model (`cap` = the acquisition count at which it cancels) -/
-def sideOf (cap : Nat) : Option (Outcome Entry) → Spec.C14.Side
+/-- what the harness would observe on one side of the model (`cap` = the acquisition count at which it cancels;
+`hasFile` = the source is a file whose Close calls are counted, `closeFails` = closing it fails): the path's outcome
+followed by the epilogue of `Run` (`Model.C14.epilogue`; NewProvider always sets `p.Close`) -/
+def sideOf (cap : Nat) (hasFile closeFails : Bool) : Option (Outcome Entry) → Spec.C14.Side
   | none => { seq := [], cut := false, run := .noreturn, end_ := .spinning }
-  | some o => { seq := o.delivered.map (·.id), cut := decide (0 < cap ∧ cap ≤ o.delivered.length), run := classOf o.run,
-                end_ := if o.sinkClosed then .closed else .blocked }
+  | some o =>
+    let f := epilogue true closeFails (EV.ofRun o.run)
+    { seq := o.delivered.map (·.id), cut := decide (0 < cap ∧ cap ≤ o.delivered.length), run := classOf f.err.run,
+      end_ := if o.sinkClosed && f.sinkClosed then .closed else .blocked,
+      runClose := f.err.close, closed := if hasFile then some f.closeCalls else none }
 
 /-- a file that `NewProvider` rejects: nothing runs -/
 def constructFailed : Spec.C14.Side := { seq := [], cut := false, run := .construct, end_ := .norun }
 
-def modelSideOf (k : Fmt) (preload : Bool) (tags cases : List String) (b : Bounds) (cap : Nat) : Spec.C14.Side :=
-  if constructs k tags.length then sideOf cap (run k preload tags cases b (if cap = 0 then none else some cap))
+def modelSideOf (k : Fmt) (preload : Bool) (tags cases : List String) (b : Bounds) (cap : Nat)
+    (hasFile closeFails : Bool) : Spec.C14.Side :=
+  if constructs k tags.length then sideOf cap hasFile closeFails (run k preload tags cases b (if cap = 0 then none else some cap))
   else constructFailed
 
-def modelSide (l : Line) (preload : Bool) : Spec.C14.Side := modelSideOf l.kind preload l.tags l.cases l.b l.cap
+def modelSide (l : Line) (preload : Bool) : Spec.C14.Side :=
+  modelSideOf l.kind preload l.tags l.cases l.b l.cap l.hasFile l.closeFails
 
 /-- a cell whose context is cancelled BEFORE Run is called (`pre=1`; outside the property, compared with the model) -/
-def modelSidePre (k : Fmt) (preload : Bool) (tags cases : List String) (b : Bounds) : Spec.C14.Side :=
-  if constructs k tags.length then sideOf 0 (run k preload tags cases b (some 0)) else constructFailed
+def modelSidePre (k : Fmt) (preload : Bool) (tags cases : List String) (b : Bounds) (hasFile closeFails : Bool) : Spec.C14.Side :=
+  if constructs k tags.length then sideOf 0 hasFile closeFails (run k preload tags cases b (some 0)) else constructFailed
 
 /-- the model's observation of a cell -/
-def modelObsOf (k : Fmt) (tags cases : List String) (b : Bounds) (cap : Nat) : Spec.C14.Obs :=
-  { s := modelSideOf k false tags cases b cap, p := modelSideOf k true tags cases b cap, tagsOk := true }
+def modelObsOf (k : Fmt) (tags cases : List String) (b : Bounds) (cap : Nat) (hasFile closeFails : Bool) : Spec.C14.Obs :=
+  { s := modelSideOf k false tags cases b cap hasFile closeFails, p := modelSideOf k true tags cases b cap hasFile closeFails,
+    tagsOk := true }
 
 def showSeq (s : List Nat) : String := if s.isEmpty then "-" else String.intercalate "," (s.map toString)
 
 /-- whether a run that never returns keeps reading the file (`spinning`) or not (`blocked`) is a diagnosis of the
 watchdog, not predicted by the model: echoed from the implementation's observation -/
-def showSide (p : String) (x : Spec.C14.Side) (implEnd : String) : String :=
+def showSide (p : String) (x : Spec.C14.Side) (implEnd : String) (implClosed : String := "-") : String :=
   let e := if x.run == .noreturn then implEnd else x.end_.name
-  s!"{p}.seq={showSeq x.seq} {p}.cut={if x.cut then 1 else 0} {p}.run={x.run.name} {p}.end={e}"
+  let c := if x.run == .noreturn then implClosed else x.closedToken
+  s!"{p}.seq={showSeq x.seq} {p}.cut={if x.cut then 1 else 0} {p}.run={x.runToken} {p}.end={e} {p}.closed={c}"
 
 /-- the canonical Host/headers text of a request of each entry -/
 def ehdrOf (k : Fmt) (src : Source) : List String := (List.range src.tags.length).map (reqText k src)
 
 /-- the model's observation of a cell with its requests -/
-def modelObsHOf (k : Fmt) (src : Source) (cases : List String) (b : Bounds) (cap : Nat) : Spec.C14.ObsH :=
-  let o := modelObsOf k src.tags cases b cap
+def modelObsHOf (k : Fmt) (src : Source) (cases : List String) (b : Bounds) (cap : Nat)
+    (hasFile closeFails : Bool) : Spec.C14.ObsH :=
+  let o := modelObsOf k src.tags cases b cap hasFile closeFails
   { base := o, reqOk := true, shd := Spec.C14.renderHd (ehdrOf k src) o.s.seq, phd := Spec.C14.renderHd (ehdrOf k src) o.p.seq }
 
 def modelObs (l : Line) (ikv : List (String × String)) : String :=
-  let o := modelObsHOf l.kind l.src l.cases l.b l.cap
-  s!"{showSide "s" o.base.s (getS ikv "s.end" "spinning")} {showSide "p" o.base.p (getS ikv "p.end" "spinning")} tagsok=1 reqok=1 s.hd={o.shd} p.hd={o.phd}"
+  let o := modelObsHOf l.kind l.src l.cases l.b l.cap l.hasFile l.closeFails
+  s!"{showSide "s" o.base.s (getS ikv "s.end" "spinning") (getS ikv "s.closed" "-")} {showSide "p" o.base.p (getS ikv "p.end" "spinning") (getS ikv "p.closed" "-")} tagsok=1 reqok=1 s.hd={o.shd} p.hd={o.phd}"
 
 def parseSeq (s : String) : Option (List Nat) := if s == "-" then some [] else parseNats s
 
+/-- `closeerr` = the error of Close alone (a non-nil error of none of the provider's classes), `<class>+closeerr` -/
+def parseRunTok (r : String) : Spec.C14.RunClass × Bool :=
+  if r == "closeerr" then (.other, true)
+  else if r.endsWith "+closeerr" then (parseRun (r.dropEnd "+closeerr".length).toString, true)
+  else (parseRun r, false)
+
 def parseSide (kv : List (String × String)) (p : String) : Option Spec.C14.Side := do
+  let rt := parseRunTok (getS kv (p ++ ".run"))
   pure { seq := ← parseSeq (getS kv (p ++ ".seq")), cut := getS kv (p ++ ".cut") == "1",
-         run := parseRun (getS kv (p ++ ".run")), end_ := ← parseEnd (getS kv (p ++ ".end")) }
+         run := rt.1, end_ := ← parseEnd (getS kv (p ++ ".end")), runClose := rt.2,
+         closed := (getS kv (p ++ ".closed") "-").toNat? }
 
 def handle : Handler := fun input impl =>
   match parseLine (parseKV input) with
@@ -148,7 +171,7 @@ def handle : Handler := fun input impl =>
       -- not a configuration of the property: never a failure.  Where the implementation does what the model says the
       -- cell counts as a validated trace; where it does not (a tree that treats a pre-cancelled context differently)
       -- the cell is skipped.
-      let m := s!"{showSide "s" (modelSidePre l.kind false l.tags l.cases l.b) "spinning"} {showSide "p" (modelSidePre l.kind true l.tags l.cases l.b) "spinning"} tagsok=1 reqok=1 s.hd=- p.hd=-"
+      let m := s!"{showSide "s" (modelSidePre l.kind false l.tags l.cases l.b l.hasFile l.closeFails) "spinning"} {showSide "p" (modelSidePre l.kind true l.tags l.cases l.b l.hasFile l.closeFails) "spinning"} tagsok=1 reqok=1 s.hd=- p.hd=-"
       if m == impl then (m, "ok") else ("-", "skip:precancelled-context-differs-from-model")
     else
     if l.cap == 0 then ("-", "skip:no-cap") else
